@@ -35,6 +35,12 @@ def what_fn(case, obs, verdict):
 
 
 def run(ctx):
+    # the extracted model recurses once per byte (non-tail): megabyte bodies need a deep stack
+    import resource
+    try:
+        resource.setrlimit(resource.RLIMIT_STACK, (resource.RLIM_INFINITY, resource.RLIM_INFINITY))
+    except (ValueError, OSError):
+        pass
     os.environ["A07_ORACLE"] = os.path.join(common.BIN, "hC07")
     common.standard(
         ctx, harness="hC07", extracted="C07_model", driver_dir="C07",
